@@ -1,6 +1,6 @@
 (* Properties/C19.v — vertices and transactions survive every transcoding unchanged. *)
 From Coq Require Import List Arith NArith ZArith Lia Bool Permutation.
-From Verif Require Import WalletFile Msg Codec CodecP Msgpack CodecFields MsgpackP ProtoWire ProtoWireP ProtoWireOrder.
+From Verif Require Import WalletFile Msg Codec CodecP Msgpack CodecFields MsgpackP ProtoWire ProtoWireP ProtoWireOrder ProtoWireMerge.
 Import ListNotations.
 Local Open Scope Z_scope.
 
@@ -89,7 +89,7 @@ Proof. exact marshal_unmarshal. Qed.
 Print Assumptions C19_protowire_marshal_unmarshal.
 
 (* ... (3) the known finding as a theorem of the model: a message has NO wire form exactly when one of its string fields (signer,
-   subject, receiver, issuer) is not valid UTF-8 - such a vertex, which the ledger admits and the storage codec keeps, is never
+   subject, receiver, issuer) is not valid UTF-8 - such a vertex, which the ledger accepts and the storage codec keeps, is never
    gossiped - and bytes that carry such a signer address are refused on the way in ... *)
 Theorem C19_protowire_non_utf8_has_no_wire_form : forall p, strings_valid_pvtx p = false <-> marshal_pvtx p = None.
 Proof. exact marshal_refuses_non_utf8. Qed.
@@ -128,6 +128,14 @@ Print Assumptions C19_protowire_vertex_envelope_roundtrip.
 Theorem C19_protowire_transaction_envelope_roundtrip : forall m, wf_ptmsg m -> dec_ptmsg (enc_ptmsg m) = Some m.
 Proof. exact ptmsg_roundtrip. Qed.
 Print Assumptions C19_protowire_transaction_envelope_roundtrip.
+
+(* ... (8) The record grammar is closed under concatenation: two parsable byte strings, concatenated, parse to the concatenation of
+   their records. This is what protobuf's MERGE of repeated occurrences of an embedded message amounts to, and what justifies the
+   model's "decode the concatenation of the occurrences" (every occurrence also has to decode on its own, dec_sub). *)
+Theorem C19_protowire_concatenation_is_merge : forall a b fa fb, parse_all a = Some fa -> parse_all b = Some fb ->
+  parse_all (a ++ b) = Some (fa ++ fb).
+Proof. exact parse_all_app. Qed.
+Print Assumptions C19_protowire_concatenation_is_merge.
 
 (* The decoder is order-insensitive and skips unknown fields (what lets a newer peer add a field), shown on Spice. *)
 Theorem C19_protowire_unknown_field_skipped : forall s k w, wf_pspice s -> wf_field (k, w) -> (3 <= k)%N ->
